@@ -183,7 +183,15 @@ class RemoveAndReopen(Scenario):
         kind, n, m, k, op = (self.params[x] for x in ("kind", "n", "m", "k", "op"))
         h5shim.reset()
         patch.STUBS_USED.add("h5py -> symx.h5shim proxy over the real in-memory HDF5 file (seam B, A-H5)")
-        ws = Workspace()
+        if self.params.get("clear_cache"):      # cache clearing is a no-op for in-memory workspaces: use a file on disk
+            import os, shutil, uuid as _uuid
+            from .common import HERE
+            work = os.path.join(HERE, ".work", f"c07_{os.getpid()}_{_uuid.uuid4().hex[:8]}")
+            os.makedirs(work, exist_ok=True)
+            cx.on_exit(lambda: shutil.rmtree(work, ignore_errors=True))
+            ws = Workspace.create(os.path.join(work, "ws.geoh5"))
+        else:
+            ws = Workspace()
         verts = real_np.zeros((n, 3))
         if kind == "points":
             obj = Points.create(ws, vertices=verts)
@@ -212,6 +220,16 @@ class RemoveAndReopen(Scenario):
                 live["cells"] = (shape(obj.cells), elems(obj.cells))
                 if cd is not None:
                     live["cd"] = (shape(cd.values), elems(cd.values))
+            if self.params.get("clear_cache"):
+                # public way to drop the array caches of the live object: a copy with clear_cache=True; the getters must
+                # then re-read (or re-derive) exactly what they showed before
+                obj.copy(clear_cache=True)
+                again = {"vertices": (shape(obj.vertices), elems(obj.vertices))}
+                if w:
+                    again["cells"] = (shape(obj.cells), elems(obj.cells))
+                for key, (shp, vals) in again.items():
+                    cx.prove(shp == live[key][0] and And([eq(x, y) for x, y in zip(vals, live[key][1])]),
+                             f"{key} unchanged after the caches were cleared", "cache clear")
             uid = obj.uid
             ws.close()
             ws2 = Workspace(ws.h5file)
@@ -307,7 +325,8 @@ def scenarios(tier, seed):
         for L in (0, 2, 3, 4):
             S.append(AssignValues(kind="points", n=3, L=L, dkind="float"))
             S.append(AssignValues(kind="points", n=3, L=L, dkind="int"))
-        S += [RemoveAndReopen(kind="curve", n=4, m=3, k=1, op="cells"), RemoveAndReopen(kind="curve", n=4, m=3, k=1, op="vertices"),
+        S += [RemoveAndReopen(kind="curve", n=4, m=3, k=1, op="cells", clear_cache=True),
+              RemoveAndReopen(kind="curve", n=4, m=3, k=1, op="cells"), RemoveAndReopen(kind="curve", n=4, m=3, k=1, op="vertices"),
               RemoveAndReopen(kind="surface", n=4, m=2, k=1, op="cells"), RemoveAndReopen(kind="points", n=3, m=0, k=2, op="vertices")]
         for L in (1, 2, 3):
             S.append(AssignValues(kind="curve", n=2, L=L, dkind="float"))
@@ -331,6 +350,7 @@ def scenarios(tier, seed):
             for op in (("vertices", "cells") if m else ("vertices",)):
                 for k in (1, 2):
                     S.append(RemoveAndReopen(kind=kind, n=n, m=m, k=k, op=op))
+                S.append(RemoveAndReopen(kind=kind, n=n, m=m, k=1, op=op, clear_cache=True))
         for kind in ("curve", "surface"):
             for n in (1, 3):
                 for L in range(0, n + 2):
